@@ -122,6 +122,7 @@ def handleC01 (inp obs : List String) : Verdict :=
     let t ← peek?
     if t == some "panic" then pure (none, "panic")
     else if t == some "sorterr" then pure (none, "sort_by returned Err")
+    else if t == some "abort" then pure (none, "the process running the sort aborted (e.g. memory allocation failure)")
     else do
       let len ← nat
       let outs ← many pChunkItem
@@ -142,6 +143,7 @@ def handleC01 (inp obs : List String) : Verdict :=
       (if c > 0 && n % c == c - 1 && c > 1 then ["len-k-chunk-minus-1"] else []) ++
       (if c > 0 && n % c == 1 && n > 1 && c > 1 then ["len-k-chunk-plus-1"] else []) ++
       (if c > n then ["chunk-larger-than-input"] else []) ++ (if c == n && n > 0 then ["chunk-equals-input"] else []) ++
+      (if c ≥ 2^33 then ["chunk-size-above-2^33"] else []) ++ (if c == 2^64 - 1 then ["chunk-size-usize-max"] else []) ++
       (if hasTie then ["ties"] else []) ++
       (if sortedFor rev xs && n ≥ 2 then ["already-sorted"] else []) ++ (if sortedFor (!rev) xs && n ≥ 2 then ["reversed-input"] else []) ++
       [s!"threads-{threads}", s!"compression-{match comp with | none => "none" | some l => toString l}", s!"tmpdir-{if tmp == 1 then "explicit" else "default"}", s!"type-{ty}"] ++
